@@ -48,6 +48,24 @@ def _c14_lemmas(tier, seed):
                 note="over the abstract operation lists of spec/btc_lib.py; carries over to serialized transactions only under A-BTCLIB")
 
 
+def _app_hash_bounded(tier, seed):
+    import subprocess, os, json
+    here = os.path.dirname(os.path.dirname(os.path.abspath(__file__)))
+    cmd = ["/venv/bin/python", os.path.join(here, "bounded", "app_hash.py")] + (["--full"] if tier == "thorough" else [])
+    p = subprocess.run(cmd, capture_output=True, text=True, timeout=1800)
+    try:
+        d = json.loads(p.stdout)
+    except ValueError:
+        return dict(name="bounded-differential-app-hash", bounded=True, status="checker-error", error=(p.stdout + p.stderr)[-600:])
+    out = dict(name="bounded-differential-app-hash", bounded=True, bound=d["bound"], stats=d["stats"], status="violation" if d["failures"] else "ok",
+               note="real code, real ledgerblue Intel-HEX parser, independent writer and SHA-256; NOT counted as proved")
+    if d.get("skipped"):
+        out["skipped"] = d["skipped"]
+    if d["failures"]:
+        out.update(witness=d["failures"][0], what=d["failures"][0]["what"], replay_cmd="/venv/bin/python bounded/app_hash.py")
+    return out
+
+
 def _certs_v2_bounded(prop):
     def run(tier, seed):
         import subprocess, os, json
@@ -167,7 +185,8 @@ PROPS = {
                 trusted_base=["spec/hash_ext.py", "spec/cli_ext.py", "spec/fs.py"],
                 explanation="hash = SHA-256 of the concatenation of the parser's areas in order (loop invariant over a recursive spec function); one key per run, "
                             "public-key file and one signature file per image with fully specified contents, every signature over the image's hash and verifying under the key; "
-                            "no term written to a file or to stdout mentions the secret (syntactic taint)"),
+                            "no term written to a file or to stdout mentions the secret (syntactic taint)",
+                extras=[_app_hash_bounded]),
     "C07": dict(level="other", assumptions=COMMON + ["A-CRYPTO(P-256): ecdsa VerifyingKey.from_string / verify_digest as uninterpreted functions (verify_digest returns True or raises)",
                                                       "A-X509: cryptography (load_pem_x509_certificate, validity attributes, public_key().verify), datetime.now, base64 as assumed contracts",
                                                       "A-HASH: sha256 uninterpreted; A-CSTRUCT: struct views by executing the real classes; the report-data offsets of the SPECIFICATION side are the "
